@@ -34,6 +34,14 @@ def generate(rng, tier):
         elif r < 0.22 and entry != 2:
             c["kw"] = rng.choice([1, 2]); c["family"] += "/keyword-arguments"
         cases.append(c)
+    for _ in range(30 if tier == "quick" else 1000):
+        # two moves that differ in one argument only, -1 against -2 (equal hashes in CPython) or neighbouring small values
+        rate, accel, T, fam = ebbgen.gen_lt(rng)
+        f = rng.choice(["rate", "accel"]); a, b = rng.choice([(-1, -2), (-2, -1), (0, 1), (1, 2)])
+        base = {"rate": rate, "accel": accel, "T": T}; base[f] = a
+        if not ebbgen.lt_in_domain(base["rate"], base["accel"], base["T"]): continue
+        cases.append(dict(base, entry=rng.choice([0, 0, 1]), acc=ebbgen.pick_acc(rng), amb=rng.randrange(len(AMBIENT)), over=[{f: b}], kw=rng.choice([0, 0, 2]),
+                          family="after-call-differing-in-one-argument/%s" % f))
     return cases
 
 def _clear(c):
@@ -52,6 +60,10 @@ def run_impl(c):
     k, v = AMBIENT[c["amb"]]
     kw = c.get("kw", 0)
     try:
+        for ov in c.get("over", []):
+            setattr(mpmath.mp, k, v)
+            try: _once(dict(c, **ov), c["acc"], kw)
+            except Exception: pass
         for a0 in c.get("pre", []):
             setattr(mpmath.mp, k, v)
             _once(c, a0, kw)
